@@ -1266,6 +1266,25 @@ static void section_json( bool thorough, unsigned seed )
       json_one( std::string( "[1" ) + char( c ) + "2]" );
       json_one( std::string( 1, char( c ) ) + "1" );
    }
+   // UTF-8 inside strings: the product of boundary bytes up to length 3 (4 behind a four-byte lead), as a value and as a key
+   {
+      const unsigned char b12[] = { 0x7f, 0x80, 0x8f, 0x90, 0x9f, 0xa0, 0xbf, 0xc2, 0xe0, 0xed, 0xf0, 0xf4 };
+      const unsigned char b18[] = { 0x7f, 0x80, 0x8f, 0x90, 0x9f, 0xa0, 0xaf, 0xb0, 0xbf, 0xc0, 0xc1, 0xc2, 0xdf, 0xe0, 0xed, 0xee, 0xf0, 0xf4 };
+      const std::string bb = thorough ? std::string( (const char*)b18, 18 ) : std::string( (const char*)b12, 12 );
+      vt::for_all_strings( bb, 3, [ & ]( const std::string& u ) {
+         if( u.empty() )
+            return;
+         json_one( "\"" + u + "\"" );
+         json_one( "[\"a" + u + "\"]" );
+         if( u.size() == 3 )
+            json_one( "{\"" + u + "\":0}" );
+         if( u.size() == 3 ) {
+            for( const char lead : { char( 0xf0 ), char( 0xf4 ), char( 0xf1 ) } ) {
+               json_one( "\"" + std::string( 1, lead ) + u + "\"" );
+            }
+         }
+      } );
+   }
    Gen g( seed );
    const std::string interesting( "{}[]:,\"\\/0123456789-+.eEtrufalsn \t\n\r\x00\x1f\x7f\x80\xbf\xc0\xc3\xa9\xe2\xed\xa0\xf0\xf4\x90\xff", 56 );
    const int ndocs = thorough ? 20000 : 1500;
